@@ -1872,4 +1872,339 @@ theorem loadRefsMetaL_made (pol : SharePolicy) (hc : pol.loadCopiesComments = tr
     · exact loadRefsMetaL_made pol hc hm es p (e + 1) hn.2 o h
 end
 
+/-! ## Part G: the `type` property view (`Cast` falls back to `to`, a DataType is its own type) -/
+
+theorem isNull_view (R : TypeRules) (v : Val) : (v.view R).isNull = v.isNull := by
+  cases v with
+  | node => simp [Val.view, Val.isNull]
+  | dtype => simp [Val.view]
+  | raw r => simp [Val.view]
+
+theorem notNull_map_view (R : TypeRules) (o : Option Val) : notNull (o.map (Val.view R)) = (notNull o).map (Val.view R) := by
+  cases o with
+  | none => rfl
+  | some v => simp only [Option.map_some, notNull, isNull_view]; split <;> rfl
+
+theorem argOne_view (R : TypeRules) (k : String) : ∀ (args : List Arg),
+    argOne k (viewArgs R args) = (argOne k args).map (Val.view R) := by
+  intro args
+  induction args with
+  | nil => rfl
+  | cons a rest ih =>
+    cases a with
+    | one k' v =>
+      by_cases hk : k' = k
+      · simp [viewArgs, Arg.view, argOne, hk]
+      · simp [viewArgs, Arg.view, argOne, hk, ih]
+    | many k' vs => simp [viewArgs, Arg.view, argOne, ih]
+
+theorem keysOf_view (R : TypeRules) : ∀ (args : List Arg), keysOf (viewArgs R args) = keysOf args := by
+  intro args
+  induction args with
+  | nil => rfl
+  | cons a rest ih => cases a <;> simp [viewArgs, Arg.view, keysOf, Arg.key, ih]
+
+theorem viewOpt_eq_map (R : TypeRules) (o : Option Val) : viewOpt R o = o.map (Val.view R) := by
+  cases o <;> rfl
+
+/-- viewing twice changes nothing (given the fixed points of the parts) -/
+theorem typeProp_idem (R : TypeRules) (cls : String) (X : Option Val) (Y : List Arg)
+    (hX : viewOpt R X = X) (hY : viewArgs R Y = Y) :
+    viewOpt R (typeProp R cls X Y) = typeProp R cls X Y ∧
+    typeProp R cls (typeProp R cls X Y) Y = typeProp R cls X Y := by
+  unfold typeProp
+  by_cases hd : R.isDataType cls = true
+  · simp [hd, viewOpt]
+  · by_cases hc : R.isCast cls = true
+    · simp only [hd, hc, if_true, Bool.false_eq_true, if_false]
+      cases X with
+      | some t => exact ⟨hX, rfl⟩
+      | none =>
+        have hto : (argOne "to" Y).map (Val.view R) = argOne "to" Y := by rw [← argOne_view, hY]
+        have h1 : viewOpt R (notNull (argOne "to" Y)) = notNull (argOne "to" Y) := by
+          rw [viewOpt_eq_map, ← notNull_map_view, hto]
+        refine ⟨h1, ?_⟩
+        cases h : notNull (argOne "to" Y) <;> simp
+    · simp [hd, hc, hX]
+
+mutual
+theorem view_idem (R : TypeRules) : ∀ (v : Val), (v.view R).view R = v.view R
+  | .node cls ty c m args => by
+    have hX := viewOpt_idem R ty
+    have hY := viewArgs_idem R args
+    have hM := viewMeta_idem R m
+    have := typeProp_idem R cls (viewOpt R ty) (viewArgs R args) hX hY
+    simp only [Val.view, hY, hM]
+    rw [this.1, this.2]
+  | .dtype _ => by simp [Val.view]
+  | .raw _ => by simp [Val.view]
+theorem viewOpt_idem (R : TypeRules) : ∀ (o : Option Val), viewOpt R (viewOpt R o) = viewOpt R o
+  | none => rfl
+  | some v => by simp [viewOpt, view_idem R v]
+theorem viewMeta_idem (R : TypeRules) : ∀ (m : Option (List MetaE)), viewMeta R (viewMeta R m) = viewMeta R m
+  | none => rfl
+  | some l => by simp [viewMeta, viewMetaL_idem R l]
+theorem viewMetaL_idem (R : TypeRules) : ∀ (l : List MetaE), viewMetaL R (viewMetaL R l) = viewMetaL R l
+  | [] => rfl
+  | .raw k r :: es => by simp [viewMetaL, MetaE.view, viewMetaL_idem R es]
+  | .expr k v :: es => by simp [viewMetaL, MetaE.view, view_idem R v, viewMetaL_idem R es]
+theorem viewArgs_idem (R : TypeRules) : ∀ (args : List Arg), viewArgs R (viewArgs R args) = viewArgs R args
+  | [] => rfl
+  | .one k v :: as => by simp [viewArgs, Arg.view, view_idem R v, viewArgs_idem R as]
+  | .many k vs :: as => by simp [viewArgs, Arg.view, viewVals_idem R vs, viewArgs_idem R as]
+theorem viewVals_idem (R : TypeRules) : ∀ (vs : List Val), viewVals R (viewVals R vs) = viewVals R vs
+  | [] => rfl
+  | v :: vs => by simp [viewVals, view_idem R v, viewVals_idem R vs]
+end
+
+/-! ### `view` commutes with `norm` (distinct keys) -/
+
+theorem argOne_notin (k : String) : ∀ (args : List Arg), k ∉ keysOf args → argOne k args = none := by
+  intro args
+  induction args with
+  | nil => intro _; rfl
+  | cons a rest ih =>
+    intro h
+    cases a with
+    | one k' v =>
+      simp only [keysOf, Arg.key, List.mem_cons, not_or] at h
+      have : k' ≠ k := fun e => h.1 e.symm
+      simp [argOne, this, ih h.2]
+    | many k' vs =>
+      simp only [keysOf, Arg.key, List.mem_cons, not_or] at h
+      simp [argOne, ih h.2]
+
+theorem keysOf_norm_sub : ∀ (args : List Arg) (k : String), k ∈ keysOf (normArgs args) → k ∈ keysOf args := by
+  intro args
+  induction args with
+  | nil => intro k h; simp [normArgs, keysOf] at h
+  | cons a rest ih =>
+    intro k h
+    by_cases hd : a.dropped = true
+    · simp only [normArgs, hd, if_true] at h
+      simp [keysOf, ih k h]
+    · simp only [normArgs, hd, Bool.false_eq_true, if_false, keysOf, List.mem_cons] at h
+      rcases h with h | h
+      · cases a <;> simp_all [keysOf, Arg.key, Arg.norm]
+      · simp [keysOf, ih k h]
+
+theorem argOne_norm (k : String) : ∀ (args : List Arg), (keysOf args).Nodup →
+    notNull (argOne k (normArgs args)) = (notNull (argOne k args)).map Val.norm := by
+  intro args
+  induction args with
+  | nil => intro _; rfl
+  | cons a rest ih =>
+    intro hnd
+    simp only [keysOf, List.nodup_cons] at hnd
+    cases a with
+    | one k' v =>
+      simp only [Arg.key] at hnd
+      by_cases hk : k' = k
+      · subst hk
+        by_cases hn : v.isNull = true
+        · have hnone : argOne k' (normArgs rest) = none :=
+            argOne_notin k' _ (fun h => hnd.1 (keysOf_norm_sub rest k' h))
+          simp [normArgs, Arg.dropped, hn, argOne, hnone, notNull]
+        · simp [normArgs, Arg.dropped, hn, argOne, Arg.norm, notNull, isNull_norm]
+      · by_cases hn : v.isNull = true
+        · simp [normArgs, Arg.dropped, hn, argOne, hk, ih hnd.2]
+        · simp [normArgs, Arg.dropped, hn, argOne, hk, Arg.norm, ih hnd.2]
+    | many k' vs =>
+      by_cases hn : vs.isEmpty = true
+      · simp [normArgs, Arg.dropped, hn, argOne, ih hnd.2]
+      · simp [normArgs, Arg.dropped, hn, argOne, Arg.norm, ih hnd.2]
+
+theorem normOpt_eq_map (o : Option Val) : normOpt o = o.map Val.norm := by cases o <;> rfl
+
+theorem typeProp_norm (R : TypeRules) (cls : String) (X : Option Val) (Y : List Arg) (hnd : (keysOf Y).Nodup) :
+    typeProp R cls (normOpt X) (normArgs Y) = normOpt (typeProp R cls X Y) := by
+  unfold typeProp
+  by_cases hd : R.isDataType cls = true
+  · simp [hd, normOpt]
+  · by_cases hc : R.isCast cls = true
+    · simp only [hd, hc, if_true, Bool.false_eq_true, if_false]
+      cases X with
+      | some t => simp [normOpt]
+      | none => simp only [normOpt]; rw [argOne_norm "to" Y hnd, normOpt_eq_map]
+    · simp [hd, hc]
+
+theorem viewVals_isEmpty (R : TypeRules) (vs : List Val) : (viewVals R vs).isEmpty = vs.isEmpty := by
+  cases vs <;> simp [viewVals]
+
+theorem dropped_view (R : TypeRules) (a : Arg) : (a.view R).dropped = a.dropped := by
+  cases a with
+  | one k v => simp [Arg.view, Arg.dropped, isNull_view]
+  | many k vs => simp [Arg.view, Arg.dropped, viewVals_isEmpty]
+
+mutual
+theorem view_norm (R : TypeRules) : ∀ (v : Val), v.WF → (v.norm).view R = (v.view R).norm
+  | .node cls ty c m args, h => by
+    simp only [Val.WF] at h
+    obtain ⟨_, hty, hmt, hnd, hargs⟩ := h
+    have hX := viewOpt_norm R ty hty
+    have hY := viewArgs_norm R args hargs
+    have hM := viewMeta_norm R m hmt
+    have hnd' : (keysOf (viewArgs R args)).Nodup := by rw [keysOf_view]; exact hnd
+    simp only [Val.norm, Val.view, hX, hY, hM, typeProp_norm R cls _ _ hnd']
+  | .dtype _, _ => by simp [Val.norm, Val.view]
+  | .raw _, _ => by simp [Val.norm, Val.view]
+theorem viewOpt_norm (R : TypeRules) : ∀ (o : Option Val), wfOpt o → viewOpt R (normOpt o) = normOpt (viewOpt R o)
+  | none, _ => rfl
+  | some v, h => by simp only [wfOpt] at h; simp [normOpt, viewOpt, view_norm R v h.2]
+theorem viewMeta_norm (R : TypeRules) : ∀ (m : Option (List MetaE)), wfMeta m →
+    viewMeta R (normMeta m) = normMeta (viewMeta R m)
+  | none, _ => rfl
+  | some l, h => by simp only [wfMeta] at h; simp [normMeta, viewMeta, viewMetaL_norm R l h]
+theorem viewMetaL_norm (R : TypeRules) : ∀ (l : List MetaE), wfMetaL l →
+    viewMetaL R (normMetaL l) = normMetaL (viewMetaL R l)
+  | [], _ => rfl
+  | .raw k r :: es, h => by
+    simp only [wfMetaL] at h
+    simp [normMetaL, viewMetaL, MetaE.norm, MetaE.view, viewMetaL_norm R es h.2]
+  | .expr k v :: es, h => by
+    simp only [wfMetaL, MetaE.WF] at h
+    simp [normMetaL, viewMetaL, MetaE.norm, MetaE.view, view_norm R v h.1.2, viewMetaL_norm R es h.2]
+theorem viewArgs_norm (R : TypeRules) : ∀ (args : List Arg), wfArgs args →
+    viewArgs R (normArgs args) = normArgs (viewArgs R args)
+  | [], _ => rfl
+  | .one k v :: as, h => by
+    simp only [wfArgs, Arg.WF] at h
+    have ih := viewArgs_norm R as h.2
+    by_cases hn : v.isNull = true
+    · simp [normArgs, viewArgs, Arg.view, Arg.dropped, hn, isNull_view, ih]
+    · simp [normArgs, viewArgs, Arg.view, Arg.dropped, hn, isNull_view, Arg.norm, view_norm R v h.1, ih]
+  | .many k vs :: as, h => by
+    simp only [wfArgs, Arg.WF] at h
+    have ih := viewArgs_norm R as h.2
+    by_cases hn : vs.isEmpty = true
+    · simp [normArgs, viewArgs, Arg.view, Arg.dropped, hn, viewVals_isEmpty, ih]
+    · simp [normArgs, viewArgs, Arg.view, Arg.dropped, hn, viewVals_isEmpty, Arg.norm, viewVals_norm R vs h.1, ih]
+theorem viewVals_norm (R : TypeRules) : ∀ (vs : List Val), wfVals vs → viewVals R (normVals vs) = normVals (viewVals R vs)
+  | [], _ => rfl
+  | v :: vs, h => by
+    simp only [wfVals] at h
+    simp [normVals, viewVals, view_norm R v h.1, viewVals_norm R vs h.2]
+end
+
+/-! ## Part H: JSON text round trip at token level -/
+
+theorem json_list_inv {l : List Py} (h : JsonValue (.list l)) : ∀ x ∈ l, JsonValue x := by
+  cases h with
+  | list _ hl => exact hl
+
+theorem json_dict_inv {l : List (Py × Py)} (h : JsonValue (.dict l)) :
+    (∀ kv ∈ l, ∃ s, kv.1 = .str s) ∧ (∀ kv ∈ l, JsonValue kv.2) := by
+  cases h with
+  | dict _ hk hv => exact ⟨hk, hv⟩
+
+/-- the text of a JSON value never starts with a closing bracket -/
+theorem render_head (j : Py) (h : JsonValue j) (rest : List Tok) :
+    startsWith .rbrack (render j ++ rest) = false ∧ startsWith .rbrace (render j ++ rest) = false := by
+  cases h with
+  | none => simp [render, startsWith]
+  | bool b => cases b <;> simp [render, startsWith]
+  | int i => simp [render, startsWith]
+  | str s => simp [render, startsWith]
+  | list l _ => simp [render, startsWith]
+  | dict l _ _ => simp [render, startsWith]
+
+mutual
+theorem parse_render : ∀ (j : Py), JsonValue j → ∀ (rest : List Tok) (f : Nat), j.size ≤ f →
+    parse f (render j ++ rest) = some (j, rest)
+  | .none, _, rest, f, hf => by
+    cases f with
+    | zero => simp [Py.size] at hf
+    | succ f => simp [render, parse]
+  | .bool b, _, rest, f, hf => by
+    cases f with
+    | zero => simp [Py.size] at hf
+    | succ f => cases b <;> simp [render, parse]
+  | .int i, _, rest, f, hf => by
+    cases f with
+    | zero => simp [Py.size] at hf
+    | succ f => simp [render, parse]
+  | .str s, _, rest, f, hf => by
+    cases f with
+    | zero => simp [Py.size] at hf
+    | succ f => simp [render, parse]
+  | .opaque w, h, _, _, _ => by cases h
+  | .list l, h, rest, f, hf => by
+    have hl := json_list_inv h
+    cases f with
+    | zero => simp [Py.size] at hf
+    | succ f =>
+      cases l with
+      | nil => simp [render, renderElems, parse, startsWith]
+      | cons x xs =>
+        simp only [Py.size, sizePys] at hf
+        have hx : JsonValue x := hl x (by simp)
+        have h1 := parse_render x hx (renderElemsTail xs ++ rest) f (by omega)
+        have h2 := elems_tail xs (fun y hy => hl y (by simp [hy])) rest f (by omega)
+        have hh := (render_head x hx (renderElemsTail xs ++ rest)).1
+        simp only [render, renderElems, List.cons_append, List.append_assoc, parse, hh, Bool.false_eq_true, if_false,
+          h1, Option.bind_some, h2]
+  | .dict l, h, rest, f, hf => by
+    have hd := json_dict_inv h
+    cases f with
+    | zero => simp [Py.size] at hf
+    | succ f =>
+      cases l with
+      | nil => simp [render, renderMembers, parse, startsWith]
+      | cons kv kvs =>
+        simp only [Py.size, sizeKvs] at hf
+        obtain ⟨s, hs⟩ := hd.1 kv (by simp)
+        have h1 := member kv ⟨s, hs⟩ (hd.2 kv (by simp)) (renderMembersTail kvs ++ rest) f (by omega)
+        have h2 := members_tail kvs (fun y hy => hd.1 y (by simp [hy])) (fun y hy => hd.2 y (by simp [hy])) rest f
+          (by omega)
+        have hh : startsWith .rbrace (renderMember kv ++ (renderMembersTail kvs ++ rest)) = false := by
+          obtain ⟨k, v⟩ := kv
+          simp only at hs
+          subst hs
+          simp [renderMember, render, startsWith]
+        simp only [render, renderMembers, List.cons_append, List.append_assoc, parse, hh, Bool.false_eq_true, if_false,
+          h1, Option.bind_some, h2]
+theorem elems_tail : ∀ (l : List Py), (∀ x ∈ l, JsonValue x) → ∀ (rest : List Tok) (f : Nat), sizePys l + 1 ≤ f →
+    parseElemsTail f (renderElemsTail l ++ rest) = some (l, rest)
+  | [], _, rest, f, hf => by
+    cases f with
+    | zero => omega
+    | succ f => simp [renderElemsTail, parseElemsTail]
+  | x :: xs, hl, rest, f, hf => by
+    cases f with
+    | zero => omega
+    | succ f =>
+      simp only [sizePys] at hf
+      have h1 := parse_render x (hl x (by simp)) (renderElemsTail xs ++ rest) f (by omega)
+      have h2 := elems_tail xs (fun y hy => hl y (by simp [hy])) rest f (by omega)
+      simp only [renderElemsTail, List.cons_append, List.append_assoc, parseElemsTail, h1, Option.bind_some, h2]
+theorem member : ∀ (kv : Py × Py), (∃ s, kv.1 = .str s) → JsonValue kv.2 → ∀ (rest : List Tok) (f : Nat),
+    sizeKv kv ≤ f → parseMember f (renderMember kv ++ rest) = some (kv, rest)
+  | (k, v), hk, hv, rest, f, hf => by
+    obtain ⟨s, hs⟩ := hk
+    simp only at hs hv
+    subst hs
+    cases f with
+    | zero => simp [sizeKv] at hf
+    | succ f =>
+      simp only [sizeKv] at hf
+      have h1 := parse_render v hv rest f (by omega)
+      simp only [renderMember, render, List.cons_append, List.nil_append, List.append_assoc, parseMember, h1,
+        Option.bind_some]
+theorem members_tail : ∀ (l : List (Py × Py)), (∀ kv ∈ l, ∃ s, kv.1 = .str s) → (∀ kv ∈ l, JsonValue kv.2) →
+    ∀ (rest : List Tok) (f : Nat), sizeKvs l + 1 ≤ f →
+    parseMembersTail f (renderMembersTail l ++ rest) = some (l, rest)
+  | [], _, _, rest, f, hf => by
+    cases f with
+    | zero => omega
+    | succ f => simp [renderMembersTail, parseMembersTail]
+  | kv :: kvs, hk, hv, rest, f, hf => by
+    cases f with
+    | zero => omega
+    | succ f =>
+      simp only [sizeKvs] at hf
+      have h1 := member kv (hk kv (by simp)) (hv kv (by simp)) (renderMembersTail kvs ++ rest) f (by omega)
+      have h2 := members_tail kvs (fun y hy => hk y (by simp [hy])) (fun y hy => hv y (by simp [hy])) rest f (by omega)
+      simp only [renderMembersTail, List.cons_append, List.append_assoc, parseMembersTail, h1, Option.bind_some, h2]
+end
+
 end SqlglotModel.Serde
